@@ -175,7 +175,18 @@ def updateCallX (rm : Bool) (cfg : Cfg) (t : Target) (r : Record) (c : Call) : C
     else if rm || !c1.phased then (c1.set cfg.tag.key .missing, chg) else (c1, chg)
   | _, _ => if rm || !c1.phased then (c1.set cfg.tag.key .missing, chg) else (c1, chg)
 
-/-- one record of `PhasedVcfWriter.write` (the code after the F4 repair, so `cfg.repaired` is not consulted) -/
+/-- whether the body of `for sample in sample_superreads:` assigns `call[tag]` at all (it does not when existing phasing is
+    kept and the call is phased but not phased anew) -/
+def touchesTag (rm : Bool) (cfg : Cfg) (t : Target) (r : Record) (c : Call) : Bool :=
+  let (c1, _, isHet) := changeStep { cfg with repaired := true } t r c
+  match alookup t.comps r.pos, lookupPhase cfg.mav t r.pos with
+  | some _, some _ => isHet || rm || !c1.phased
+  | _, _ => rm || !c1.phased
+
+/-- one record of `PhasedVcfWriter.write` (the code after the F4 repair, so `cfg.repaired` is not consulted).
+    Without removal the tag key only enters the record's FORMAT when some target call is assigned a value; if it does not
+    and the tag is HP, the loop over the non-target samples (`value = call["HP"]`) raises `KeyError` (flag `err`, as for a
+    target call without GT). -/
 def writeRecordX (rm : Bool) (cfg : Cfg) (prev : Option Nat) (r : Record) : Out :=
   let calls1 := if rm then mapTargets cfg (fun _ c => clearPhasing { cfg with repaired := true } r.format c) r.calls
                 else r.calls
@@ -185,8 +196,14 @@ def writeRecordX (rm : Bool) (cfg : Cfg) (prev : Option Nat) (r : Record) : Out 
       match clookup calls1 t.name with
       | some c => (updateCallX rm cfg t r c).2
       | none => none
-    let err := calls1.any fun nc => isTargetName cfg nc.1 && nc.2.gt.isNone
-    ⟨{ r with format := addKey r.format cfg.tag.key, calls := calls2 }, some r.pos, changes, err⟩
+    let touched := rm || cfg.targets.any fun t =>
+      match clookup calls1 t.name with
+      | some c => touchesTag rm cfg t r c
+      | none => false
+    let fmt := if touched then addKey r.format cfg.tag.key else r.format
+    let err := (calls1.any fun nc => isTargetName cfg nc.1 && nc.2.gt.isNone) ||
+      (cfg.tag == .HP && !touched && !("HP" ∈ r.format) && cfg.samples.any fun s => !isTargetName cfg s)
+    ⟨{ r with format := fmt, calls := calls2 }, some r.pos, changes, err⟩
   else ⟨{ r with calls := calls1 }, prev, [], false⟩
 
 def writeChromX (rm : Bool) (cfg : Cfg) : Option Nat → List Record → List Out
